@@ -5,6 +5,7 @@
 //!                            | (skip n) | (takewhile p) | (last) | (dflt v) | (takelast n) | (skiplast n)
 //! events:  emit (n v) | emit c | emit (e k)     on the source subject (post-terminal ones included)
 //!          unsub                                 the subscription (a second one is a no-op: the value moved)
+//!          gdrop                                 like `unsub`, through `unsubscribe_when_dropped()` + drop of the guard
 //!          join                                  another, SILENT subscriber joins the source subject (it is never
 //!                                                unsubscribed and never finished): a neighbour of the pipeline
 //!
@@ -115,6 +116,15 @@ macro_rules! impl_suite {
           }
           "join" => {
             let _ = src.clone().actual_subscribe(Mute);
+          }
+          "gdrop" => {
+            // the documented RAII way to unsubscribe: the subscription is wrapped in a guard and the guard dropped
+            for u in subs.iter_mut() {
+              if let Some(u) = u.take() {
+                let guard = u.unsubscribe_when_dropped();
+                drop(guard);
+              }
+            }
           }
           "unsub" => {
             for u in subs.iter_mut() {
